@@ -37,7 +37,9 @@ def text_content(small=False):
 
 def title_content():
     """Titles: short texts, sometimes with a tab (titles are given as Text objects)."""
-    return st.one_of(text_content(True).filter(lambda s: s.strip() != ""), st.sampled_from(["Name\tValue", "a\tb", "T", "a longer title than most"]))
+    return st.one_of(text_content(True).filter(lambda s: s.strip() != ""), st.sampled_from(["Name\tValue", "a\tb", "T", "a longer title than most",
+                                                                                                   # as many zero-width as double-width characters: the cell length equals the number of characters
+                                                                                                   "\u6f22 Deploy e\u0301 done", "e\u0301\u6f22 report", "\u5b57x\u0301y\u0301\u672c"]))
 
 
 def title_opts():
